@@ -19,6 +19,8 @@ RULES = {
     "R18.3": "order insensitivity without truncation: every pairwise comparison of two child "
              "collections zips both sides sorted by the same key and is preceded by a length "
              "equality test",
+    "R18.5": "polarity: the 'differs' outcome of every comparison leads to 'return False' on every "
+             "path and every returned expression is an and-chain of positive comparisons",
     "R18.4": "optional referents are handled symmetrically before the recursive call",
 }
 CONCRETE = ["IR", "Module", "Section", "ByteInterval", "CodeBlock", "DataBlock", "ProxyBlock",
@@ -178,6 +180,8 @@ def run(chk: Check) -> None:
             if f.cls is c:
                 _optional(chk, f)
     chk.floor("R18.3", "zip sites over child collections", n_zip, 6)
+    npol = polarity(chk)
+    chk.floor("R18.5", "comparison atoms in deep_eq bodies", npol, 30)
     adc = repo.cls("AuxDataContainer").methods.get("deep_eq")
     if adc is not None:
         chk.saw(adc)
@@ -384,3 +388,111 @@ def _edge_key_total(chk: Check, f: FuncInfo) -> None:
            "two sides, so equal graphs compare unequal"
            % (", ".join(fields), ", ".join(missing) or ("an endpoint UUID" if not need_ends else "nothing")),
            len(fields) + 2)
+
+
+# ---------------------------------------------------------------------------
+# R18.5 polarity: deep_eq is the conjunction of its comparisons
+
+
+def _atom_polarity(t: ast.AST) -> Optional[bool]:
+    """True: the expression is true when the two sides AGREE; False: true when they DIFFER;
+    None: not a comparison atom"""
+    neg = False
+    while isinstance(t, ast.UnaryOp) and isinstance(t.op, ast.Not):
+        neg = not neg
+        t = t.operand
+    if isinstance(t, ast.Compare) and len(t.ops) == 1:
+        if isinstance(t.ops[0], (ast.Eq, ast.Is)):
+            return not neg
+        if isinstance(t.ops[0], (ast.NotEq, ast.IsNot)):
+            return neg
+        return None
+    if isinstance(t, ast.Call) and isinstance(t.func, ast.Attribute) and t.func.attr == "deep_eq":
+        return not neg
+    if isinstance(t, ast.Call) and attr_path(t.func) == ("isinstance",):
+        return not neg
+    if isinstance(t, ast.Call) and attr_path(t.func) == ("all",) and len(t.args) == 1:
+        return not neg
+    return None
+
+
+def _positive_conjunction(e: ast.AST) -> Tuple[bool, str]:
+    """is e an and-chain of positively-polarised atoms (constants True allowed)?"""
+    if isinstance(e, ast.BoolOp):
+        if not isinstance(e.op, ast.And):
+            return False, "uses 'or': %s" % unparse(e)[:60]
+        for v in e.values:
+            ok, why = _positive_conjunction(v)
+            if not ok:
+                return ok, why
+        return True, ""
+    if isinstance(e, ast.Constant) and e.value is True:
+        return True, ""
+    if isinstance(e, ast.Call) and attr_path(e.func) == ("all",) and len(e.args) == 1 and \
+            isinstance(e.args[0], (ast.GeneratorExp, ast.ListComp)):
+        return _positive_conjunction(e.args[0].elt)
+    p = _atom_polarity(e)
+    if p is True:
+        return True, ""
+    if p is False:
+        return False, "negated comparison in the result: %s" % unparse(e)[:60]
+    return False, "not a comparison: %s" % unparse(e)[:60]
+
+
+def polarity(chk: Check) -> int:
+    """every deep_eq returns True exactly under the conjunction of its comparisons: the
+    'differs' outcome of each test leads to 'return False' on every path, and every returned
+    expression is an and-chain of positive comparisons"""
+    repo = chk.repo
+    n = 0
+    for c in repo.classes.values():
+        f = c.methods.get("deep_eq")
+        if f is None or _only_raises(f):
+            continue
+        chk.saw(f)
+        cfg = CFG(f.node)
+        n += 1
+        # returned expressions
+        for r in walk_no_nested(f.node):
+            if not isinstance(r, ast.Return) or r.value is None:
+                continue
+            if isinstance(r.value, ast.Constant):
+                continue
+            ok, why = _positive_conjunction(r.value)
+            chk.ob("R18.5", "%s:result-is-conjunction@L%s" % (f.qualname, _rk(r.value)), ok, f.loc(r),
+                   "%s must return the conjunction of its comparisons; %s" % (f.qualname, why), 2)
+        false_rets = cfg.nodes_where(lambda x: isinstance(x, ast.Return) and isinstance(x.value, ast.Constant)
+                                     and x.value.value is False)
+        true_like = cfg.nodes_where(lambda x: isinstance(x, ast.Return) and not (
+            isinstance(x.value, ast.Constant) and x.value.value is False))
+        for tn, i in cfg.info.items():
+            if i.kind != "test" or i.ast is None:
+                continue
+            pol = _atom_polarity(i.ast)
+            if pol is None:
+                continue
+            oparam = f.param_names()[1]
+            if not any(isinstance(x, ast.Name) and (x.id == oparam or "other" in x.id) for x in ast.walk(i.ast)):
+                continue      # a presence test on self alone, not a comparison of the two sides
+            n += 1
+            for b in cfg.g.successors(tn):
+                bi = cfg.info[b]
+                if bi.kind != "branch":
+                    continue
+                differs = (bi.value != pol)
+                if not differs:
+                    continue
+                # from the 'differs' outcome no path may reach a non-False return
+                reach = cfg.reachable(b)
+                bad = [t_ for t_ in true_like if t_ in reach]
+                falls = cfg.exit in reach and not any(fr in reach for fr in false_rets) and not bad
+                chk.ob("R18.5", "%s:differs->False(%s)" % (f.qualname, _rk(i.ast)), not bad and not falls,
+                       f.loc(i.ast),
+                       "in %s, when %s says the two sides differ the function can still return a "
+                       "non-False result: unequal objects would compare equal (or equal ones unequal)"
+                       % (f.qualname, unparse(i.ast)[:60]), 2)
+    return n
+
+
+def _rk(e: ast.AST) -> str:
+    return "".join(ch for ch in unparse(e) if ch.isalnum() or ch in "._")[:36]
